@@ -70,6 +70,8 @@ FAMILIES = {
     # the cloud replaces instances (lost, relaunched, registered) between force removals
     "swap": fam(EnvOn=["InstanceLost", "CloudLaunch", "Register", "ExtForce", "NodeGone"], FaultOps=["terminate"], MaxFaults=1, NodeIds=["a1", "a2", "a3"],
                 cfg=dict(min=0, max=3), AsgMin0=0, AsgMax0=3, MaxPend=0, KC=1, KM=1, InitNodes=2),
+    # nodes that report zero allocatable: requests over zero capacity
+    "zerocap": fam(EnvOn=["Tick", "PodArrive", "PodFinish", "ExtTaint"], KC=0, KM=0, MaxPend=1, cfg=dict(min=0, max=3)),
     # an operator edits the ASG bounds of a group whose min / max are configured (not discovered)
     "asgedit": fam(EnvOn=["Tick", "PodArrive", "PodFinish", "AsgEdit", "CloudLaunch", "Register"],
                    cfg=dict(min=0, max=2), AsgMin0=0, AsgMax0=3, AsgBoundsSet=[[0, 1], [0, 2], [0, 3], [0, 4]], MaxPend=3, InitNodes=1),
